@@ -4,6 +4,8 @@ let channels : (string * ((string * string) list -> string)) list = [
   ("art", Chan_art.run);
   ("flags", Chan_flags.run_flags);
   ("jprops", Chan_flags.run_jprops);
+  ("dfs", Chan_dfs.run_dfs);
+  ("dfsalgo", Chan_dfs.run_dfsalgo);
 ]
 
 let () =
